@@ -110,3 +110,49 @@ def witnesses():
         "C06-angle-bracket-pair-swallows-constructs": not any("`> `" in l for l in P.fmt("aaa x<y dddd eeee `> ` zzz\n", width=8, semantic=False).split("\n")),
         "C06-adjacent-tags-split-narrow": "{% a %}{% b %}" not in P.fmt("{% a %}{% b %} text\n", width=5, semantic=False).replace("\n", "\n"),
     }
+
+
+def static_obligations(tier):
+    """ST obligation assumed by the contract on _fix_multiline_opening_tag_with_closing: every top-level alternative of
+    _multiline_closing_pattern contains its named group outside any optional / repeated-from-zero part, so whenever the
+    pattern matches one of the four named groups took part (the splitting loop then always finds its group and no line is
+    dropped)."""
+    import re._constants as sc
+    import re._parser as sp
+    from flowmark.linewrapping import tag_handling as TH
+    pat = TH._multiline_closing_pattern
+    parsed = sp.parse(pat.pattern, pat.flags)
+    names = {v: k for k, v in pat.groupindex.items()}
+
+    def mandatory_groups(seq):
+        """group numbers that every match of this sequence must set"""
+        out = set()
+        for op, av in seq:
+            if op is sc.SUBPATTERN:
+                gid, _a, _d, sub = av
+                if gid is not None:
+                    out.add(gid)
+                out |= mandatory_groups(sub)
+            elif op in (sc.MAX_REPEAT, sc.MIN_REPEAT, sc.POSSESSIVE_REPEAT):
+                lo, _hi, sub = av
+                if lo >= 1:
+                    out |= mandatory_groups(sub)
+            elif op is sc.BRANCH:
+                alts = [mandatory_groups(a) for a in av[1]]
+                out |= set.intersection(*alts) if alts else set()
+            elif op is sc.ATOMIC_GROUP:
+                out |= mandatory_groups(av)
+        return out
+
+    items = list(parsed)
+    if len(items) == 1 and items[0][0] is sc.BRANCH:
+        alts = items[0][1][1]
+    else:
+        alts = [parsed]
+    per_alt = [sorted(names.get(g, str(g)) for g in mandatory_groups(a)) for a in alts]
+    want = {"closing_tag", "closing_comment", "closing_var", "closing_html"}
+    ok = all(set(a) & want for a in per_alt) and set(pat.groupindex) == want
+    return [{"oid": "shape/linewrapping.tag_handling:_multiline_closing_pattern/every_alternative_has_its_named_group",
+             "status": "discharged" if ok else "refuted",
+             "src": "every alternative of _multiline_closing_pattern sets one of the four named groups the splitting loop looks for",
+             "detail": "alternatives set %s; named groups %s" % (per_alt, sorted(pat.groupindex))}]
